@@ -23,7 +23,7 @@ SeqOf(x) == "Seq" \o x
 (* packaging sorts: Pair = (Int, Int); Rec = {k1: Int, k2: Int}; Nest = (Pair, Int);  *)
 (* RecP = {k1: Pair, k2: Int}; PS = (SeqJet, Int)                                     *)
 PackSorts == {"Pair", "Rec", "Nest", "RecP", "PS", "PSP", "RecS", "RecI"}   \* RecI = {0: Int, 1: Int}   \* PSP = (SeqPair, Int); RecS = {k1: PS, k2: Pair}
-ElemSorts == IF Fam = "fused" THEN {"Evt", "Jet", "Int"}
+ElemSorts == IF Fam \in {"fused", "betad", "corea"} THEN {"Evt", "Jet", "Int"}
              ELSE IF Fam = "betaw" THEN {"Evt", "Jet", "Trk"}
              ELSE IF Fam = "betads" THEN {"Evt", "Int", "Pair"}
              ELSE IF Fam = "chainf" THEN {"Evt", "Jet", "Int", "Pair", "Rec", "Nest"}
